@@ -43,9 +43,17 @@ GReRegSnap == \E v \in Vals : keyver[v] <= 1 /\ ReRegister(v) /\ H("ReRegister",
 GReassignSame == (\E id \in DOMAIN msgs : msgs[id].kind = "slc") /\ (\A id \in DOMAIN msgs : msgs[id].asg < 1) /\ Reassign /\ H("Reassign", [x |-> 0, same |-> TRUE])
                  /\ PrintT(<<"HIST", ToJson(hist')>>)
 GNextS == GPut \/ GSignGood \/ GReRegSnap \/ GReassignSame
+\* "order" family: the ORDER in which evidence arrives (and re-arrives) is part of the view, so histories that reach the
+\* same model state through different submission / re-submission orders are all kept (the tally must not depend on it)
+EvOrder == SelectSeq(hist, LAMBDA s : s.act = "Evidence")
+GEvidenceO == \E v \in {1, 3, 4}, id \in DOMAIN msgs, e \in EvValues :
+                /\ Len(EvOrder) < 4 /\ v \notin jailed /\ msgs[id].ev[v] # e
+                /\ Evidence(v, id, e) /\ H("Evidence", [v |-> v, id |-> id, e |-> e])
+GNextO == GPut \/ GEvidenceO \/ GEndBlockT \/ (height = 1 /\ Len(EvOrder) >= 2 /\ Advance(349) /\ H("Advance", [dh |-> 349]))
 GInit == Init /\ hist = <<>>
 Last == IF hist = <<>> THEN <<>> ELSE hist[Len(hist)]
 GView == <<Last, res, msgs, nextId, keyver, refHeight, jailed, height>>
+GViewO == <<GView, EvOrder>>
 GConstr == Len(hist) <= MaxOps /\ height <= 1000
 EmitCond == Len(hist) >= 3 /\ res \in {"eb", "fail"}
 GNextC == (IF EmitCond THEN PrintT(<<"HIST", ToJson(hist)>>) ELSE TRUE) /\ GNext
